@@ -1,0 +1,16 @@
+//go:build verif
+
+package main
+
+// Machine-checked contracts (govc, see /verif/DESIGN.md). Comment-only file.
+
+// ---- C31: the object service asks its FS chain adapter two different membership questions
+// (container nodes of the current epoch: "may this node store the object"; container nodes
+// of the last two epochs: "may this sender replicate to us"). The adapter answers each with
+// the placement service's method of the same name - the answers are not interchangeable.
+//@ func (*fsChainForObjects).ForEachContainerNodePublicKey
+//@   property C31
+//@   ensures [answers_for_the_current_epoch_only] resultOf(err, "*).ForEachContainerNodePublicKey")
+//@ func (*fsChainForObjects).ForEachContainerNodePublicKeyInLastTwoEpochs
+//@   property C31
+//@   ensures [answers_for_the_last_two_epochs] resultOf(err, "*).ForEachContainerNodePublicKeyInLastTwoEpochs")
